@@ -18,11 +18,14 @@ import time
 
 ROOT = os.path.dirname(os.path.dirname(os.path.abspath(__file__)))
 REPO = os.environ.get("VERIF_REPO", "/repo")
-BUILD = os.path.join(ROOT, "build")
+BUILD = os.environ.get("VERIF_BUILD", os.path.join(ROOT, "build"))
 SPEC = os.path.join(ROOT, "spec")
 HARNESS = os.path.join(ROOT, "harness")
-EVIDENCE = os.path.join(ROOT, "evidence")
-REPLAYS = os.path.join(ROOT, "replays")
+# VERIF_OUT redirects evidence and replay files (used when the checks are pointed at a scratch copy of the repository,
+# e.g. to try a seeded change: VERIF_REPO=/tmp/x VERIF_BUILD=/tmp/xb VERIF_OUT=/tmp/xo bin/check C10)
+_OUT = os.environ.get("VERIF_OUT", ROOT)
+EVIDENCE = os.path.join(_OUT, "evidence")
+REPLAYS = os.path.join(_OUT, "replays")
 GUARD = "GMGPOLAR_VERIF"
 NCPU = os.cpu_count() or 4
 
